@@ -424,9 +424,6 @@ func (l *IPFSLog) Iterator(options *IteratorOptions, output chan<- iface.IPFSLog
 	}
 
 	if options.Amount != nil {
-		if *options.Amount == 0 {
-			return nil
-		}
 		amount = *options.Amount
 	}
 
@@ -462,6 +459,12 @@ func (l *IPFSLog) Iterator(options *IteratorOptions, output chan<- iface.IPFSLog
 				start = append(start, e)
 			}
 		}
+	}
+
+	if amount == 0 {
+		l.lock.RUnlock()
+		close(output)
+		return nil
 	}
 
 	endHash := ""
